@@ -328,6 +328,10 @@ def run_sem(prop, tier, replay):
         if len(rep.samples) < 3 and r['n_compressed']:
             rep.sample(dict(program=r['src'][:500], compressed_lines=r['n_compressed'], executions=r['n_exec']))
     kf.report(rep)
+    if prop == 'C20':
+        # the specification's `eligible` and `expand16` themselves, against LLVM's compressor
+        from harness import llvmx
+        rep.count('eligible_vs_llvm_compared', llvmx.compress_check(rep, tier))
     rep.cov['programs'] = len(results)
     rep.cov['rule'] = ('seeded programs (literal instructions biased to every RVC operand-set edge, all 27 pseudo-instructions with '
                        'all register choices incl. rd=rs/x0/sp, li values on the 12/32-bit edges, branches/jumps to labels) assembled '
